@@ -181,6 +181,38 @@ func c07ManyModes() []*lexref.Spec {
 	return out
 }
 
+// c07Padded: two rules that match the same text (a keyword that pushes a mode,
+// declared before or after an identifier rule), followed by k one-character
+// token rules and a last rule with a different mode action. The point is the
+// numbering of NFA / DFA states: with k growing, the accepting states of the
+// later rules run through every one- and two-digit number.
+func c07Padded() []*lexref.Spec {
+	var out []*lexref.Spec
+	cls := lexref.Cls(&lexref.Class{Items: []lexref.ClassItem{lexref.Range('a', 'b')}})
+	for _, kw := range []string{"a", "ab", "abb"} {
+		for order := 0; order < 2; order++ {
+			for k := 0; k <= 22; k++ {
+				key := lexref.Rule{K: lexref.RToken, Name: "KW", Rx: lexref.Lit(kw), Actions: []lexref.Action{{K: lexref.APush, Arg: "M"}}}
+				id := lexref.Rule{K: lexref.RToken, Name: "ID", Rx: lexref.Rep(cls, lexref.CPlus)}
+				var rules []lexref.Rule
+				if order == 0 {
+					rules = []lexref.Rule{key, id}
+				} else {
+					rules = []lexref.Rule{id, key}
+				}
+				for i := 0; i < k; i++ {
+					rules = append(rules, lexref.Rule{K: lexref.RToken, Name: fmt.Sprintf("P%d", i+1), Rx: lexref.Lit(string(rune('c' + i)))})
+				}
+				rules = append(rules, lexref.Rule{K: lexref.RToken, Name: "EM", Rx: lexref.Lit("z"), Actions: []lexref.Action{{K: lexref.APush, Arg: ""}}})
+				s := &lexref.Spec{Modes: []lexref.Mode{{Rules: rules},
+					{Name: "M", Rules: []lexref.Rule{{K: lexref.RToken, Name: "T", Rx: lexref.Lit("a"), Actions: []lexref.Action{{K: lexref.APop}}}, {K: lexref.RFrag, Rx: lexref.Lit("z"), Actions: []lexref.Action{{K: lexref.ADiscard}}}}}}}
+				out = append(out, s)
+			}
+		}
+	}
+	return out
+}
+
 var c07Symbols = [][]byte{[]byte("a"), []byte("b"), []byte("c"), []byte("z")}
 
 func c07One(ws *pipe.Workspace, fam string, idx int64, s *lexref.Spec, depth, L int, st *mc.Stats) []mc.Violation {
@@ -263,6 +295,14 @@ func c07Worker(c *mc.Ctx) {
 			c.Stats.Violate(v)
 		}
 	}
+	for i, s := range c07Padded() {
+		if !c.Mine(int64(i)) {
+			continue
+		}
+		for _, v := range c07One(ws, "padded-overlap", int64(i), s, depth, 3, &c.Stats) {
+			c.Stats.Violate(v)
+		}
+	}
 	for _, fam := range c07Spaces(c.Quick()) {
 		n := fam.sp.Size()
 		if fam.limit > 0 && fam.limit < n {
@@ -303,7 +343,7 @@ func init() {
 	mc.Register(&mc.Check{
 		ID:    "C07",
 		Level: "model_checking",
-		Rule: "mode graphs: 2-3 modes, 1-2 literal rules per mode; every rule is written in every way from {token, accumulating fragment, @discard fragment, @emit fragment} x {no mode action, @push_mode(each mode incl. the default), @pop_mode} x every order of the written actions (thorough: also two mode actions on one rule); plus specifications with 4 and 10-13 modes (two-digit mode numbers) under three orders of mode names relative to declaration order; " +
+		Rule: "mode graphs: 2-3 modes, 1-2 literal rules per mode; every rule is written in every way from {token, accumulating fragment, @discard fragment, @emit fragment} x {no mode action, @push_mode(each mode incl. the default), @pop_mode} x every order of the written actions (thorough: also two mode actions on one rule); plus specifications with 4 and 10-13 modes (two-digit mode numbers) under three orders of mode names relative to declaration order, and a keyword / identifier pair with mode actions followed by 0-22 one-character rules (state numbers running through one and two digits); " +
 			"each: BFS of the product (real state machine) x (reference mode-stack machine), mode stack bounded by depth D (deeper pushes close the branch and are counted), plus all strings up to L over the pattern characters through the real driver (token texts include accumulated fragment text); non-trivial = spec with > 2 product states",
 		Assume: []string{"reference: internal/lx RefM (documented stack discipline; every written action takes effect; several mode actions on one rule execute in written order)", "nothing is compared after an unmatched @pop_mode or the first error"},
 		Worker: c07Worker,
